@@ -1062,10 +1062,11 @@ theorem parseDoc_inv (c : Cfg) (hc : c.discardGuard = true) (s : St) (d : Doc) (
 
 /-- the release sites / guards under which the invariant is inductive (the fixed source). -/
 def Cfg.Sound (c : Cfg) : Prop :=
-  c.removeEntDiscardsEntId = false ∧ c.removeEntDiscardsNodeId = false ∧ c.discardGuard = true
+  c.removeEntDiscardsEntId = false ∧ c.removeEntDiscardsNodeId = false ∧ c.discardGuard = true ∧
+    c.failedCtorReleases = false
 
 theorem stepCore_inv (c : Cfg) (hs : c.Sound) (s : St) (op : Op) (hi : Inv s) : Inv (stepCore c s op) := by
-  have hc := hs.2.2
+  have hc := hs.2.2.1
   cases op with
   | newmap => exact newMap_inv s hi
   | ent r m des node solids fix =>
@@ -1273,14 +1274,16 @@ theorem stepCore_inv (c : Cfg) (hs : c.Sound) (s : St) (op : Op) (hi : Inv s) : 
             · cases hr
       exact setFix_inv s h _ (fxDel_inv _ _ (hi.fix _ _ ho)) hi
   | parse d => exact parseDoc_inv c hc s d hi
-  | failsolid m =>
+  | failsolid m des =>
     simp only [stepCore]
     split
-    · exact failsolid_inv c hc s m hi
+    · rename_i hcond
+      rw [hs.2.2.2] at hcond
+      exact absurd hcond.2 (by decide)
     · exact hi
 
 theorem step_inv (c : Cfg) (hs : c.Sound) (s : St) (op : Op) (hi : Inv s) : Inv (step c s op) :=
-  collect_inv c hs.2.2 _ (stepCore_inv c hs s op hi)
+  collect_inv c hs.2.2.1 _ (stepCore_inv c hs s op hi)
 
 theorem run_inv (c : Cfg) (hs : c.Sound) (ops : List Op) : Inv (run c ops) := by
   unfold run
